@@ -8,6 +8,7 @@
   error log at the current location.
 -/
 import LccModel.Lemmas.RunTask
+import LccModel.Lemmas.RunBody
 
 namespace LccModel.C02Run
 open LccModel.Report LccModel.Session LccModel.Run
@@ -227,6 +228,169 @@ theorem handleException_flushes_only_starts (ts : TS) (c : Cursor) (hinv : Inv t
     (hc : getCursor ts.sess 0 = some c) : ∀ e ∈ c.pending, holdable e = true :=
   pending_holdable hinv.held hc
 
+/-! ### "Passed" also means: ran to completion -/
+
+/-- a failure recorded at `L` stays recorded through any program that keeps the session invariant and only
+    appends to the fired stream (the failure set is in sync with the fired failing events) -/
+theorem failed_sticky {α : Type} {J J' : St → Prop} {Φ : List Item → Prop} {m : M α} (h : Tr J J' Φ m)
+    (hJ : ∀ s, J s → Inv s) (hJ' : ∀ s, J' s → Inv s) (ts : TS) (hj : J ts.sess) (L : Loc)
+    (hf : isSuccessful ts.sess L = false) : isSuccessful (exec m ts).2.sess L = false := by
+  obtain ⟨hj', new, hext, _⟩ := h ts hj
+  unfold isSuccessful at hf ⊢
+  simp only [Bool.not_eq_false', List.contains_iff_mem] at hf ⊢
+  obtain ⟨e, he, hfe⟩ := ((hJ _ hj).sync L).mp hf
+  refine ((hJ' _ hj').sync L).mpr ⟨e, ?_, hfe⟩
+  rw [hext.fired]
+  exact List.mem_append_left _ he
+
+/-- what a program has emitted stays in the output -/
+theorem out_mono {α : Type} {J J' : St → Prop} {Φ : List Item → Prop} {m : M α} (h : Tr J J' Φ m)
+    (ts : TS) (hj : J ts.sess) {x : Item} (hx : x ∈ ts.out.toList) : x ∈ (exec m ts).2.out.toList := by
+  obtain ⟨_, new, hext, _⟩ := h ts hj
+  rw [hext.out]
+  exact List.mem_append_left _ hx
+
+theorem userOk_any (L : Loc) : UserOk (PIn L (fun _ _ _ => True)) :=
+  ⟨fun _ _ _ _ => trivial, fun _ _ _ _ _ => trivial, fun _ _ _ _ => trivial, fun _ _ _ _ => trivial⟩
+
+/-- `handle_exception` by a worker that has a cursor at `L` marks `L` failed -/
+theorem handleException_fails {L : Loc} (k : ExcKind) (suite : Option Path) (ws : Bool) (ts : TS) (hj : JC L ts.sess) :
+    isSuccessful (exec (handleException k suite ws) ts).2.sess L = false := by
+  obtain ⟨c, hc⟩ := Option.isSome_iff_exists.mp hj.2.2
+  have hl : c.loc = L := (locInv_cur hj.2.1 hc).1
+  have := (handleException_spec k suite ws ts c hc).2.2.1
+  rw [hl] at this
+  exact this
+
+/-- **the body phase**: started by a worker working at the test's location, if the test is still successful
+    when the phase is over (and the model recorded no error), the body unit has run to its end -/
+theorem testBody_exit (P : Proj) (svs : List SuiteView) (w : Nat) (path : Path) (tsp : TestSpec) (ts : TS)
+    (hj : JC (.test path) ts.sess)
+    (hok : isSuccessful (exec (testBody P svs w path tsp) ts).2.sess (.test path) = true)
+    (herr : (exec (testBody P svs w path tsp) ts).2.err = none) :
+    Item.user 0 (.body path) "exit" ∈ (exec (testBody P svs w path tsp) ts).2.out.toList := by
+  have hI := inner_JC (.test path) (fun _ _ _ => True)
+  have hU := userOk_any (.test path)
+  have hInv : ∀ s, JC (.test path) s → Inv s := fun s h => h.1
+  have hl := tra_lookupAll hI hU P svs w (.test path) path.dropLast tsp.fixtures
+  have hs := tra_sop_inner hI 0 (.setStep ("test " ++ tsp.name)) rfl
+  have hr := tra_runUnit hI hU (.body path) tsp.script (fun _ _ _ => trivial) (fun _ => trivial)
+  rw [testBody_exec] at hok herr ⊢
+  revert hok herr
+  cases h0 : isSuccessful ts.sess (.test path)
+  · intro hok _
+    simp only at hok
+    rw [h0] at hok; cases hok
+  · simp only
+    rcases h1 : exec (lookupAll P svs w (.test path) path.dropLast tsp.fixtures) ts with ⟨v1, s1⟩
+    have hj1 : JC (.test path) s1.sess := by
+      have := (hl ts hj).1
+      rw [h1] at this; exact this
+    cases v1 with
+    | some e =>
+      intro hok _
+      simp only at hok
+      rw [handleException_fails e _ true s1 hj1] at hok; cases hok
+    | none =>
+      simp only
+      cases h2 : isSuccessful s1.sess (.test path)
+      · intro hok _
+        simp only at hok
+        rw [h2] at hok; cases hok
+      · simp only
+        have hj2 := (hs s1 hj1).1
+        rcases h3 : exec (runUnit (.body path) tsp.script) (exec (sop 0 (.setStep ("test " ++ tsp.name))) s1).2 with ⟨v3, s3⟩
+        have hj3 : JC (.test path) s3.sess := by
+          have := (hr _ hj2).1
+          rw [h3] at this; exact this
+        cases v3 with
+        | some e =>
+          intro hok _
+          simp only at hok
+          rw [handleException_fails e _ true s3 hj3] at hok; cases hok
+        | none =>
+          intro _ herr
+          simp only at herr ⊢
+          have hx := (exit_of_none FUEL).2 0 (.body path) tsp.script
+            (exec (sop 0 (.setStep ("test " ++ tsp.name))) s1).2
+          have h3' : exec (execScript FUEL 0 (.body path) tsp.script)
+              (exec (sop 0 (.setStep ("test " ++ tsp.name))) s1).2 = (none, s3) := h3
+          rw [h3'] at hx
+          rcases hx rfl with h | h
+          · exact h
+          · rw [herr] at h; cases h
+
+/-- **A test reported passed ran to completion.**  For every project, every enabled test that is run (any
+    fixtures, hooks, scripts, threads, attachment blocks, any interrupt point `cut`): if the task's result class is
+    `success` (the report status is then `passed`: no failing event, `test_result_iff_failing_event`) and the model
+    recorded no error, the body unit was entered and ran to its end — its `exit` record is in the task's output.
+    There is no way for a test to end `success` with its body skipped, cut short or replaced: the body is guarded
+    only by "the test is still successful" (a failed setup fails the test), and whatever leaves the body by an
+    exception is turned into an error log by `handle_exception`. -/
+theorem passed_test_ran_its_body_to_completion (P : Proj) (insts : Insts) (w : Nat) (t : TaskId) (reason : Bool)
+    (kept : List Td) (cut : Option Nat) (hk : t.kind = .test)
+    (sv : SuiteView) (hsv : (allSuites P).find? (fun sv => sv.path == t.path.dropLast) = some sv)
+    (ts : TestSpec) (hts : sv.spec.tests.find? (fun x => x.name == t.path.getLast?.getD "") = some ts)
+    (hen : testDisabledNow P sv ts = false)
+    (hres : (runTask P insts w t true reason kept cut).res = .success)
+    (herr : (runTask P insts w t true reason kept cut).err = none) :
+    Item.user 0 (.body t.path) "exit" ∈ (runTask P insts w t true reason kept cut).items := by
+  have hprog : taskProgram P (allSuites P) w t true reason kept = testRun P (allSuites P) w t.path sv ts := by
+    rw [taskProgram_test hk hsv hts]; simp [testTask, hen]
+  have hI := inner_JC (.test t.path) (fun _ _ _ => True)
+  have hU := userOk_any (.test t.path)
+  have hInv : ∀ s, JC (.test t.path) s → Inv s := fun s h => h.1
+  -- result, error flag and items of the task in terms of the final state of `testRun`
+  have e := testRun_exec P (allSuites P) w t.path sv ts (ts0 insts cut)
+  rw [runTask_res, hprog, e] at hres
+  have herr' : (exec (testRun P (allSuites P) w t.path sv ts) (ts0 insts cut)).2.err = none := by
+    have : (runTask P insts w t true reason kept cut).err = (finalTS P insts w t true reason kept cut).err := rfl
+    rw [this] at herr; unfold finalTS at herr; rw [hprog] at herr; exact herr
+  rw [e] at herr'
+  rw [runTask_items]; unfold finalTS; rw [hprog, e]
+  clear e herr hprog
+  dsimp only at hres herr' ⊢
+  -- the six phases, one after the other
+  have h1 := (tr_startTest t.path (mdOf ts.name ts.rank) (ts0 insts cut) (jt_init _)).1
+  generalize (exec (sop 0 (.startTest t.path (mdOf ts.name ts.rank))) (ts0 insts cut)).2 = s1 at *
+  have h2 := (tra_sop_inner hI 0 (.setStep "Setup test") rfl s1 h1).1
+  generalize (exec (sop 0 (.setStep "Setup test")) s1).2 = s2 at *
+  have h3 := (tra_testSetup hI hU P (allSuites P) w t.path sv ts s2 h2).1
+  generalize exec (testSetup P (allSuites P) w t.path sv ts) s2 = r3 at *
+  obtain ⟨kept3, s3⟩ := r3
+  dsimp only at hres herr' h3 ⊢
+  have h4 := (tra_testBody hI hU P (allSuites P) w t.path ts (fun _ _ _ => trivial) (fun _ => trivial) s3 h3).1
+  have hbody := testBody_exit P (allSuites P) w t.path ts s3 h3
+  generalize (exec (testBody P (allSuites P) w t.path ts) s3).2 = s4 at *
+  have t5 := tra_testTeardown hI hU P (allSuites P) t.path kept3
+  have h5 := (t5 s4 h4).1
+  have hf5 := failed_sticky t5 hInv hInv s4 h4 (.test t.path)
+  have ho5 := fun x (hx : x ∈ s4.out.toList) => out_mono t5 s4 h4 hx
+  have hk5 := ke_testTeardown P (allSuites P) t.path kept3 s4
+  generalize (exec (testTeardown P (allSuites P) t.path kept3) s4).2 = s5 at *
+  have t6 := tr_endTest t.path
+  have hf6 := failed_sticky t6 hInv hInv s5 h5 (.test t.path)
+  have ho6 := fun x (hx : x ∈ s5.out.toList) => out_mono t6 s5 h5 hx
+  have hk6 := ke_sop 0 (.endTest t.path) s5
+  generalize (exec (sop 0 (.endTest t.path)) s5).2 = s6 at *
+  -- success at the end: success after the body (failures are sticky), no model error after the body
+  have hok6 : isSuccessful s6.sess (.test t.path) = true := by
+    revert hres
+    cases isSuccessful s6.sess (.test t.path)
+    · intro h; simp at h
+    · intro _; rfl
+  have hok4 : isSuccessful s4.sess (.test t.path) = true := by
+    cases h : isSuccessful s4.sess (.test t.path) with
+    | true => rfl
+    | false => rw [hf6 (hf5 h)] at hok6; cases hok6
+  have herr4 : s4.err = none := by
+    cases h : s4.err with
+    | none => rfl
+    | some m =>
+      have := hk6 (hk5 (by rw [h]; rfl))
+      rw [herr'] at this; cases this
+  exact ho6 _ (ho5 _ (hbody hok4 herr4))
+
 /-! ### Non-vacuity (premises hold on the concrete project `Sample.PA`; a state with a cursor exists) -/
 
 open Sample in
@@ -240,6 +404,16 @@ example :
     let out := runTask PA Insts.empty 0 ⟨.init, ["s"]⟩ true false [] none
     (out.res = .success ↔ ¬ ∃ e, Item.ev e ∈ out.items ∧ failsAt e (.suiteSetup ["s"]) = true) :=
   (init_result_iff_failing_event PA Insts.empty 0 ⟨.init, ["s"]⟩ false [] none rfl svA hsvS).2
+
+open PassSample in
+/-- `passed_test_ran_its_body_to_completion` is not vacuous: the test `s.p` of `PassSample.P` ends `success` without
+    model error, and the theorem puts the `exit` record of its body into the output (it is there: `decide`) -/
+example : PassSample.out.res = .success ∧ PassSample.out.err = none ∧
+    Item.user 0 (.body ["s", "p"]) "exit" ∈ PassSample.out.items := by
+  have h1 : PassSample.out.res = .success := by decide +kernel
+  have h2 : PassSample.out.err = none := by decide +kernel
+  exact ⟨h1, h2, passed_test_ran_its_body_to_completion P Insts.empty 0 ⟨.test, ["s", "p"]⟩ false [] none rfl
+    PassSample.sv (by rfl) tp (by rfl) (by rfl) h1 h2⟩
 
 /-- a failing event does fail its location (the right-hand sides above are satisfiable) -/
 example : failsAt (.check (.test ["s", "t"]) (some "x") 0 "" false none 5) (.test ["s", "t"]) = true := by decide
